@@ -12,6 +12,17 @@ OP_NOTE = ("Trusted: TLC; the harness store (harness/modelstore) as an implement
            "implementation traces are TLC-simulated behaviours plus seeded random histories, not all histories.")
 
 CLAIMS = {
+    "C03": dict(level="model_checking", ref="DESIGN.md §3 C03",
+                text="(i) Redirect-URI decision table spec/RedirectURI.tla: every (registration, requested URI, response type, other request defect) case "
+                     "- URIs as component records within two deviations of every registered URI / glob instance (quick) or the full component product "
+                     "(thorough) - is checked by TLC against the property sentence (Allowed) under the code's decision procedure, exported, executed on the "
+                     "real op.ValidateAuthReqRedirectURI and on /authorize of both routers, and the observed outcomes are judged by the monitor "
+                     "RedirectURITrace with the same rules. (ii) Flow level: the authorize family of OP.tla (Authorize/Login/Callback histories, all response "
+                     "modes and types) model-checked and trace-validated on both routers: a redirect, code, token or form response only to the stored, "
+                     "registered URI; unknown client / URI / request id only error pages.",
+                technique="TLA+ decision-table spec + TLA+ state-machine spec model-checked with TLC; TLC-exported cases and behaviours executed on the real provider; observations validated by TLA+ monitors",
+                note="Trusted: TLC; injective concretisation of URI records (harness/tbldrv/redirect.go); harness store; projection of Location / form action. "
+                     "Glob semantics modelled for three patterns (host label, path suffix, port). Bounds: RedirectURIDesign_*.cfg, OPDesign_authorize*.cfg."),
     "C04": dict(level="model_checking", ref="DESIGN.md §3 C04",
                 text="TLC exhaustively checks the code-flow design spec (both routers' decision procedures, OPDesign_code.cfg) against the "
                      "declarative rules C04.* and validates every recorded history of the real provider (TLC-generated behaviours + seeded "
